@@ -133,23 +133,12 @@ def method(ex, recv, name, args, kwargs, node):
     raise Unsupported(f"method {name} on {recv!r} at {ex.site(node)}")
 
 
-_RA = {}
-
-
 def _replace_all():
-    """Python's s.replace(a, b) (all occurrences) = SMT-LIB str.replace_all for non-empty a."""
-    if "f" not in _RA:
-        S = z3.StringSort()
-        try:
-            _RA["f"] = lambda s, a, b: z3.ReplaceAll(s, a, b) if hasattr(z3, "ReplaceAll") else _ra_decl()(s, a, b)
-        except Exception:
-            _RA["f"] = _ra_decl()
-    return _RA["f"]
-
-
-def _ra_decl():
-    S = z3.StringSort()
-    return z3.Function("py_replace_all", S, S, S, S)
+    """Python's s.replace(a, b) (all occurrences) = SMT-LIB str.replace_all for non-empty a"""
+    def f(s, a, b):
+        ctx = s.ctx
+        return z3.SeqRef(z3.Z3_mk_seq_replace_all(ctx.ref(), s.as_ast(), a.as_ast(), b.as_ast()), ctx)
+    return f
 
 
 def function(ex, dotted, args, kwargs, node):
